@@ -76,8 +76,9 @@ def run(ctx):
 def unchecked_sites(ctx, crates, config):
     r = ctx.rule("R-UNCHECKED-SITES" + ("" if config == "default" else "/" + config),
                  "unchecked conversions to str/String/char occur only at the reviewed sites")
+    from ..report import Pool
     table = load_table("unchecked.json")[config]
-    used = {}
+    pool = Pool(table, config)
     n = 0
     for crate in crates:
         if crate is None:
@@ -103,16 +104,30 @@ def unchecked_sites(ctx, crates, config):
                             hits.append("transmute->" + s["rv"]["to"])
                 for h in hits:
                     n += 1
-                    key = "%s::%s | %s" % (crate.name, fn.path, h)
-                    used[key] = used.get(key, 0) + 1
-                    ent = table.get(key)
-                    if ent and used[key] <= ent["count"]:
-                        r.ok("%s (reviewed: %s)" % (key, ent["reason"]), fn, t.get("line"))
-                    else:
+                    owner = "%s::%s" % (crate.name, fn.path)
+
+                    def on_bad(crate=crate, fn=fn, h=h, t=t, why=""):
                         r.violation("%s::%s" % (crate.name, fn.path), h,
                                     "%s::%s performs the unchecked conversion %s, which is not one of the reviewed "
-                                    "sites: nothing shows that the bytes are well-formed UTF-8" % (crate.name, fn.path, h),
+                                    "sites%s: nothing shows that the bytes are well-formed UTF-8" % (crate.name, fn.path, h, why),
                                     fn.loc(t.get("line")))
+
+                    def on_ok(ent, moved, crate=crate, fn=fn, h=h, t=t, on_bad=on_bad):
+                        # a reviewed conversion may move into a private helper of the same file (its callers are then
+                        # the functions it was reviewed for); a public or foreign-file home is a new site
+                        if moved:
+                            src = crate.fn(moved.split("::", 1)[1]) if "::" in moved else None
+                            same_file = src is None or src.file == fn.file
+                            if fn.is_pub or not same_file:
+                                on_bad(why=" (it moved out of %s into a %s function)" % (moved, "public" if fn.is_pub else "different file's"))
+                                return
+                        r.ok("%s | %s (reviewed%s: %s)" % (fn.path, h, " for %s, moved" % moved if moved else "", ent["reason"]),
+                             fn, t.get("line"))
+
+                    pool.site(owner, h, on_ok, on_bad)
+    pool.settle()
+    if pool.unused():
+        r.note("reviewed conversions no longer present: %s" % sorted(pool.unused().items()))
     r.floor("sites", n)
 
 
